@@ -107,6 +107,14 @@ func (c *Ctx) clientVisible(i ssa.Instruction) bool {
 			return true
 		}
 	}
+	if f, ok := fireOf(call); ok {
+		// handlers of any other event may answer the request; the lock/confirm veto
+		// point itself (Before(EventAuth)) and the failure report are the two
+		// events the rule is about
+		if !(f.Const && ((f.Before && f.Event == c.Event("EventAuth")) || (!f.Before && f.Event == c.Event("EventAuthFail")))) {
+			return true
+		}
+	}
 	switch Callee(call) {
 	case fnRespond, fnRedirect, "(net/http.ResponseWriter).WriteHeader", "(net/http.ResponseWriter).Write", "net/http.Redirect", "net/http.Error", "(net/http.Header).Set", "(net/http.Header).Add", "net/http.SetCookie":
 		return true
